@@ -2,10 +2,14 @@
 use crate::Property;
 
 pub mod c01;
+pub mod c17;
+pub mod c18;
 
 pub fn lookup(id: &str) -> Option<&'static dyn Property> {
     let p: &'static dyn Property = match id {
         "C01" => &c01::C01,
+        "C17" => &c17::C17,
+        "C18" => &c18::C18,
         _ => return None,
     };
     Some(p)
